@@ -292,6 +292,9 @@ pub fn run(ctx: &mut Ctx) {
     });
     ctx.require(&r, &["rendered"]);
 
+    // hidden state behind the renderer: alternation of every date with two anchors (formatted text compared)
+    crate::history::alternating_with_anchor(ctx, "C04", crate::history::Family::Accessors);
+
     // f. applicability through the Display path: every (token, type) pair, write! into a sink
     let tys = ALL_TYPES;
     let r = ctx.sweep_each("applicability_display_sink", "every (token spelling, type) pair: value.format(picture) written into a String sink with write!; an inapplicable token must surface as Err, an applicable one as the reference text", (sp.len() * tys.len()) as u64, 16, |idx, acc| {
